@@ -66,19 +66,38 @@ Theorem c17_prop_code_spec : forall j0 ops obs, prop_code j0 ops obs = 0 <-> C17
 Proof. exact prop_code_spec. Qed.
 Print Assumptions c17_prop_code_spec.
 
-Theorem c17_holds_all_histories : forall j0 ops, C17_holds j0 ops (observe_fx true j0 ops).
-Proof. exact holds_all_histories. Qed.
-Print Assumptions c17_holds_all_histories.
+(* clauses 1-7 (everything but the strict timeout clause) for all histories of the current variant *)
+Theorem c17_core_all_histories : forall j0 ops, C17_core j0 ops (observe_fx true j0 ops).
+Proof. exact core_all_histories. Qed.
+Print Assumptions c17_core_all_histories.
 
-(* [observe] is the variant Extract.v runs: breaks if Model.recheck_same_node is flipped back *)
-Theorem c17_prop_code_model : forall j0 ops, prop_code j0 ops (observe j0 ops) = 0.
+(* clause 8 (strict reading of "an expired job deletes its reservation") can only fail at a step that
+   started WITHOUT a recorded ReservationRef — from any start state, in both variants *)
+Theorem c17_leak_only_unrecorded : forall fx ops s mine,
+  leak_only_unrecorded mine (sj s) ops (obs_from fx s ops) = true.
+Proof. exact trace_leak_shape. Qed.
+Print Assumptions c17_leak_only_unrecorded.
+
+(* [observe] is the variant Extract.v runs (breaks if Model.recheck_same_node is flipped back):
+   the property holds, or only clause 8 fails and the failure has the known shape sig 2 *)
+Theorem c17_prop_code_model : forall j0 ops,
+  prop_code j0 ops (observe j0 ops) = 0 \/ finding_code j0 ops (observe j0 ops) = 2.
 Proof. exact prop_code_model. Qed.
 Print Assumptions c17_prop_code_model.
 
-(* the two functions the driver runs (Extract.v extracts exactly these): on EVERY input the property's
-   decision procedure accepts the model's own observable, so any property failure reported by the
-   check comes from the implementation's observable *)
-Theorem c17_wire_model : forall inp, prop_case inp (run_case inp) = 0.
+(* clause 8 is refuted by the faithful model: known finding sig 2 (corpus case l1, replayed on the code) *)
+Theorem c17_timeout_leak_refuted :
+  exists inp, let '(j0, ops) := decode inp in
+    prop_code j0 ops (observe j0 ops) = 8 /\ finding_code j0 ops (observe j0 ops) = 2.
+Proof. exact timeout_leak_refuted. Qed.
+Print Assumptions c17_timeout_leak_refuted.
+
+(* the functions the driver runs (Extract.v extracts exactly these): on EVERY input the decision
+   procedure accepts the model's own observable or reports exactly the known finding, so any other
+   property failure reported by the check comes from the implementation's observable *)
+Theorem c17_wire_model : forall inp,
+  prop_case inp (run_case inp) = 0
+  \/ (prop_case inp (run_case inp) = 8 /\ finding_sig inp (run_case inp) = 2).
 Proof. exact wire_model. Qed.
 Print Assumptions c17_wire_model.
 
@@ -91,11 +110,12 @@ Proof. exact old_other_node_refuted. Qed.
 Print Assumptions c17_old_other_node_refuted.
 
 (* every violation of the old variant is a same-node eviction in a reconcile that started with the
-   same-node check already cached in the job status *)
-Theorem c17_old_violations_are_the_cached_shape : forall j0 ops,
-  prop_code j0 ops (observe_fx false j0 ops) = 0 \/ finding_code j0 ops (observe_fx false j0 ops) = 1.
-Proof. exact old_only_known_shape. Qed.
-Print Assumptions c17_old_violations_are_the_cached_shape.
+   same-node check already cached in the job status (sig 1), or the timeout leak (sig 2) *)
+Theorem c17_old_violations_are_the_known_shapes : forall j0 ops,
+  prop_code j0 ops (observe_fx false j0 ops) = 0
+  \/ finding_code j0 ops (observe_fx false j0 ops) = 1 \/ finding_code j0 ops (observe_fx false j0 ops) = 2.
+Proof. exact old_only_known_shapes. Qed.
+Print Assumptions c17_old_violations_are_the_known_shapes.
 
 (* ---- non-vacuity ---- *)
 Definition ex_pod1 := mkPod 1 1 2 true.
